@@ -389,7 +389,10 @@ Section AssembleData.
     set (nw := Z.to_nat (cb_w c)). set (nh := Z.to_nat (cb_h c)).
     assert (Hcl : length (crop coeffs Wn nx0 ny0 nw nh) = (nh * nw)%nat).
     { apply crop_length; [unfold nx0, nw, Wn; lia|]. rewrite coeffs_length. unfold ny0, nh, Hn. nia. }
-    rewrite blit_guarded_eq by (try (unfold nx0, nw, Wn; lia); [rewrite Hla; unfold ny0, nh, Hn; nia|lia]).
+    assert (P1 : (nx0 + nw <= Wn)%nat) by (unfold nx0, nw, Wn; lia).
+    assert (P2 : ((ny0 + nh) * Wn <= length acc)%nat) by (rewrite Hla; unfold ny0, nh, Hn; nia).
+    assert (P3 : (nh * nw <= length (crop coeffs Wn nx0 ny0 nw nh))%nat) by lia.
+    rewrite (blit_guarded_eq Wn nx0 ny0 nw (crop coeffs Wn nx0 ny0 nw nh) nh acc P1 P2 P3).
     change (blit acc Wn nx0 ny0 nw nh (crop coeffs Wn nx0 ny0 nw nh)) with (put_crop coeffs Wn acc (nx0, ny0, nw, nh)).
     change (nx0, ny0, nw, nh) with (nrect_of c).
     change (fold_left (put_crop coeffs Wn) (map nrect_of bs) (put_crop coeffs Wn acc (nrect_of c)))
